@@ -182,7 +182,7 @@ func (s *SelectStatement) ToStreamConfig() (*types.Config, string, error) {
 	// 窗口查询里的分析函数：把参数中的内联聚合（如 changed_cols 内的 avg(...)））
 	// 提取为隐藏计算字段，重写参数为隐藏键引用，供窗口聚合计算后供分析函数消费。
 	if needWindow && len(analyticFields) > 0 {
-		extractInlineAggregates(analyticFields, aggs, fields)
+		extractInlineAggregates(analyticFields, aggs, fields, expressions)
 		// 分析函数默认按 GROUP BY 键分区：跨窗口为每个分组各自保留状态，
 		// 避免不同分组的窗口输出共享状态而串扰。
 		gk := extractGroupFields(s)
@@ -467,7 +467,7 @@ func splitAnalyticExprMulti(expr string) (calls []types.AnalyticCall, wrapper st
 // 复合表达式参数（如 avg(temp) + 1）只替换其中的聚合调用 span，外层运算符保留，
 // 参数变为 __winagg_0__ + 1，运行期由表达式求值器计算。
 // 隐藏键前缀 __winagg_ 在窗口产出后被剥离，不进最终输出；显示名用于 changed_cols 输出列名。
-func extractInlineAggregates(analyticFields []types.AnalyticField, aggs map[string]aggregator.AggregateType, fieldMap map[string]string) {
+func extractInlineAggregates(analyticFields []types.AnalyticField, aggs map[string]aggregator.AggregateType, fieldMap map[string]string, expressions map[string]types.FieldExpression) {
 	pattern := regexp.MustCompile(`(?i)\b([a-z_]+)\s*\(`)
 	seq := 0
 	for i := range analyticFields {
@@ -498,13 +498,22 @@ func extractInlineAggregates(analyticFields []types.AnalyticField, aggs map[stri
 				}
 				aggCall := trimmed[idx[0] : closeParen+1]
 				// 只解析聚合调用本身（不含外层运算符），避免整参被误判为 "expression" 型聚合。
-				aggType, name, _, _, perr := ParseAggregateTypeWithExpression(aggCall)
+				aggType, name, expression, allFields, perr := ParseAggregateTypeWithExpression(aggCall)
 				if perr != nil || aggType == "" {
 					continue
 				}
 				hidden := fmt.Sprintf("__winagg_%d__", seq)
 				seq++
 				aggs[hidden] = aggType
+				// An expression argument (sum(x + 1), max(t * 2.5)) is evaluated per row before
+				// aggregation, like the same call written as a select item or in HAVING.
+				if expression != "" && expressions != nil {
+					expressions[hidden] = types.FieldExpression{
+						Field:      name,
+						Expression: expression,
+						Fields:     allFields,
+					}
+				}
 				// 输入字段：name 为聚合的输入字段（如 avg(temperature) 的 temperature）；
 				// 无显式字段时（如 count(*)）用隐藏键本身，聚合器按需处理。
 				if name != "" {
